@@ -154,7 +154,7 @@ class C12(OptEngineBase):
     SWEEP_MENU = {"stdout": STDOUT_FAULTS, "solver": SOLVER_FAULTS, "usercode": ["interrupt"]}
     TIERS = {
         "quick": {"runs": 1600, "budget_s": 75, "chunk": 8},
-        "thorough": {"runs": 32000, "budget_s": 900, "chunk": 16},
+        "thorough": {"runs": 26000, "budget_s": 900, "chunk": 16},
     }
     RULE = (
         "Each run = one seeded case: swarm config, a pose graph of 2..12 vertices (converging, slowly converging, diverging "
